@@ -537,6 +537,7 @@ func checkC13(c *Ctx) {
 		}
 		ru4.Check(bad == "", "will stored in the session record by "+c.fname(handler), c.where(handler, handler), "Create(..., session.LWT(), ...)", bad)
 	}
+	c.rulePeerRecordsOutliveWills("C13-R6")
 	// survivors must learn that a session ended cleanly even when the removal overtakes the creation (otherwise its will is published on peer failure)
 	ru5 := c.R.Rule("C13-R5", "replicated session records follow the merge decision table (a removal for a not-yet-known session is kept), so a cleanly ended session is never seen as live by the survivors of a later peer failure", "shared with C08-R3", 0)
 	if d := c.dstate(ru5); d != nil {
